@@ -270,14 +270,50 @@ def ogg_pages(d):
     return pages
 
 
+def oggflac_headers(pk):
+    """FLAC-in-Ogg mapping (xiph.org/flac/ogg_mapping.html): packet 0 = 0x7F "FLAC" major minor <number of further
+    header packets, 16 bit BE, 0 = unknown> "fLaC" + the STREAMINFO metadata block; every further header packet is ONE
+    metadata block (4-byte header: last flag | type, 24-bit length).  Declared lengths equal the packet extents, exactly
+    the final metadata block carries the last-block flag and the header-packet count agrees with where that block is.
+    -> number of header packets behind packet 0"""
+    p0 = pk[0]
+    need(len(p0) >= 13 + 4 and p0[9:13] == b"fLaC", "oggflac: mapping header without the fLaC marker")
+    need(p0[5] == 1, "oggflac: mapping version %d.%d" % (p0[5], p0[6]))
+    count = int.from_bytes(p0[7:9], "big")
+    blocks = [p0[13:]]
+    i = 1
+    while not blocks[-1][0] & 0x80:
+        if count and i > count:
+            break               # reported below: the announced header packets end without a flagged block
+        need(i < len(pk), "oggflac: no metadata block carries the last-block flag (%d header packets walked)" % (i - 1))
+        need(len(pk[i]) >= 4, "oggflac: header packet %d shorter than a block header" % i)
+        blocks.append(pk[i]); i += 1
+    for j, b in enumerate(blocks):
+        t = b[0] & 0x7F
+        need(t != 127, "oggflac: invalid block type 127 in header packet %d" % j)
+        n = int.from_bytes(b[1:4], "big")
+        need(n == len(b) - 4, "oggflac: block %d declares %d bytes, its packet holds %d" % (j, n, len(b) - 4))
+    need(blocks[0][0] & 0x7F == 0 and len(blocks[0]) == 38, "oggflac: first metadata block is not a 34-byte STREAMINFO")
+    nhead = len(blocks) - 1
+    flags = [bool(b[0] & 0x80) for b in blocks]
+    need(flags == [False] * nhead + [True], "oggflac: last-metadata-block flags %r: not exactly the final block flagged" %
+         "".join("1" if x else "0" for x in flags))
+    if count:
+        need(nhead == count, "oggflac: mapping header announces %d header packets, the flagged last block is number %d" % (count, nhead))
+    if len(pk) > 1 + nhead:
+        a = pk[1 + nhead]
+        need(len(a) >= 2 and a[0] == 0xFF and (a[1] & 0xFC) == 0xF8, "oggflac: no frame sync in the packet after the last metadata block")
+    return nhead
+
+
 def ogg(d, codec=None):
     pages = ogg_pages(d)
     streams = {}
     order = []
-    for pg in pages:
+    for pgidx, pg in enumerate(pages):
         s = pg["serial"]
         if s not in streams:
-            streams[s] = dict(seq=None, packets=[], partial=None, pages=[], eos=False)
+            streams[s] = dict(seq=None, packets=[], partial=None, pages=[], eos=False, pkpages=[], curpg=[])
             order.append(s)
             need(pg["flags"] & 2, "ogg: first page of serial %d lacks the first-page flag" % s)
         else:
@@ -297,8 +333,11 @@ def ogg(d, codec=None):
             if cur is None:
                 cur = b""
             cur += pg["body"][q:q + l]; q += l
+            if not st["curpg"] or st["curpg"][-1] != pgidx:
+                st["curpg"].append(pgidx)
             if l < 255:
                 st["packets"].append(cur); cur = None; finished += 1
+                st["pkpages"].append(st["curpg"]); st["curpg"] = []
         st["partial"] = cur
         if finished == 0 and pg["lac"]:
             need(pg["pos"] == -1, "ogg: page finishing no packet has a granule position (serial %d seq %d)" % (s, pg["seq"]))
@@ -310,6 +349,7 @@ def ogg(d, codec=None):
     padding = None
     prefixes = {"vorbis": b"\x03vorbis", "opus": b"OpusTags", "theora": b"\x81theora"}
     foreign = []
+    comment_pages = None
     for s in order:
         st = streams[s]
         pk = st["packets"]
@@ -324,13 +364,21 @@ def ogg(d, codec=None):
         if tagged is None and kind is not None and (codec is None or kind == codec) and len(pk) > 1:
             tagged = s
             c = pk[1]
+            trailer = b""
+            comment_pages = list(st["pkpages"][1])
             if kind in prefixes:
                 need(c.startswith(prefixes[kind]), "ogg: second packet of %s stream is not its comment header" % kind)
                 body = c[len(prefixes[kind]):]
                 vendor, items, used = vc_decode(body, framing=(kind == "vorbis"))
                 rest = body[used:]
-                if kind == "opus" and rest and (rest[0] & 1):
-                    padding = None
+                if kind == "opus":
+                    # RFC 7845 5.2: what follows the comment list is opaque data editors preserve when the least
+                    # significant bit of its first byte is set, and padding (of any content) otherwise
+                    if rest and (rest[0] & 1):
+                        padding = None
+                        trailer = rest
+                    else:
+                        padding = len(rest)
                 else:
                     need(not rest.strip(b"\x00"), "ogg: non-zero bytes after the comment in %s" % kind)
                     padding = len(rest)
@@ -340,6 +388,7 @@ def ogg(d, codec=None):
                 need(not rest.strip(b"\x00"), "ogg: non-zero bytes after the speex comment")
                 padding = len(rest)
             else:  # flac: 4-byte metadata block header + VC
+                oggflac_headers(pk)
                 need((c[0] & 0x7F) == 4, "oggflac: second packet is not a VORBIS_COMMENT block")
                 n = int.from_bytes(c[1:4], "big")
                 need(n == len(c) - 4, "oggflac: block size %d != packet payload %d" % (n, len(c) - 4))
@@ -351,12 +400,15 @@ def ogg(d, codec=None):
             foreign.append(("serial%d-partial" % s, st["partial"] or b""))
             foreign.append(("serial%d-lastgranule" % s, struct.pack("<q", max([pg["pos"] for pg in st["pages"] if pg["pos"] != -1] or [-1]))))
             foreign.append(("serial%d-flags" % s, bytes([st["pages"][0]["flags"] & 2, st["pages"][-1]["flags"] & 4])))
+            if kind == "opus":
+                # data behind the comment list that editors have to preserve (empty: none)
+                foreign.append(("serial%d-comment-trailer" % s, trailer))
         else:
             foreign.append(("serial%d-pages" % s, b"".join(pg["raw"] for pg in st["pages"])))
     # relative order of the pages of the untouched serials
     foreign.append(("other-order", b"".join(struct.pack("<II", pg["serial"], pg["seq"]) for pg in pages if pg["serial"] != tagged)))
     return dict(foreign=foreign, tags=tags, padding=padding, extra=dict(tagged=tagged, npages=len(pages),
-                comment_pages=None))
+                comment_pages=comment_pages, geometry=[(pg["off"], len(pg["raw"])) for pg in pages]))
 
 
 # ---------------------------------------------------------------- ID3 at file start (+ID3v1 at end), APEv2
